@@ -2,6 +2,7 @@ import BpModel.All
 import BpModel.Spec
 import BpProofs.SpecCore
 import BpProofs.SpecPack
+import BpProofs.SpecEnc
 /-
   C02 — wire interoperability with the reference protobuf implementation.
 
@@ -76,6 +77,92 @@ theorem load_pack_value (S : Schema) (rec : Loader) (d : MsgD) (idx : Nat) (f : 
   have hl := idx_lt_of_wf d st idx f (hall _ (List.getLast_mem hne)).2.1 hw
   simp only [appendAt]
   rw [setAt_getD]; simp [hl]
+
+
+/-- concrete instance of `load_pack_mix` — **one packed record holding `xs ++ ys`, two packed
+    records holding `xs` and `ys` (a packed field split into chunks; any number of chunks,
+    an empty chunk included), and the unpacked records of the same elements decode alike**.
+    `chunks`, `chunks'`: two ways of cutting the same element sequence into packed records;
+    elements are 4 / 8-byte values or varints written minimally or padded (`ValidElem`). -/
+theorem load_chunk_split (S : Schema) (rec : Loader) (d : MsgD) (idx : Nat) (f : FieldD) (hr : IsRepScalar f)
+    (before after : List PField) (st : MState) (hw : WfState d st) (num : Nat)
+    (chunks chunks' : List (List Bytes)) (raws raws' : List Bytes → Bytes)
+    (hne : chunks ≠ []) (hne' : chunks' ≠ []) (hsame : chunks.flatten = chunks'.flatten)
+    (hv : ∀ c ∈ chunks, ∀ e ∈ c, ValidElem f.ty e) (hv' : ∀ c ∈ chunks', ∀ e ∈ c, ValidElem f.ty e)
+    (ht : ∀ p raw, Targets d (packedRec num p raw) idx f)
+    (vs : List Val) (hd : decodeElems f.ty chunks.flatten = .ok vs) :
+    foldFields S rec d st (before ++ (chunks.map fun c => packedRec num c.flatten (raws c)) ++ after)
+      = foldFields S rec d st (before ++ (chunks'.map fun c => packedRec num c.flatten (raws' c)) ++ after) := by
+  apply load_pack_mix S rec d idx f hr before after _ _ st hw (by simpa using hne) (by simpa using hne')
+    (by intro pf hpf; simp only [List.mem_map] at hpf; obtain ⟨c, _, e⟩ := hpf; rw [← e]; exact ht _ _)
+    (by intro pf hpf; simp only [List.mem_map] at hpf; obtain ⟨c, _, e⟩ := hpf; rw [← e]; exact ht _ _) vs
+  · exact elemsOfRecs_chunks S rec f hr.2.1 num chunks raws hv vs hd
+  · exact elemsOfRecs_chunks S rec f hr.2.1 num chunks' raws' hv' vs (by rw [← hsame]; exact hd)
+
+/-- concrete instance of `load_pack_mix` — **packed ↔ unpacked**: the packed chunks of an
+    element sequence and the unpacked records of the same elements (one VARINT / I32 / I64
+    record each) decode alike. -/
+theorem load_pack_toggle (S : Schema) (rec : Loader) (d : MsgD) (idx : Nat) (f : FieldD) (hr : IsRepScalar f)
+    (before after : List PField) (st : MState) (hw : WfState d st) (num : Nat)
+    (chunks : List (List Bytes)) (raws : List Bytes → Bytes) (raws' : Bytes → Bytes)
+    (hne : chunks ≠ []) (hne' : chunks.flatten ≠ [])
+    (hv : ∀ c ∈ chunks, ∀ e ∈ c, ValidElem f.ty e)
+    (ht : ∀ p raw, Targets d (packedRec num p raw) idx f)
+    (ht' : ∀ e raw, Targets d (unpackedRec num f.ty e raw) idx f)
+    (vs : List Val) (hd : decodeElems f.ty chunks.flatten = .ok vs) (hnl : ∀ v ∈ vs, isListVal v = false) :
+    foldFields S rec d st (before ++ (chunks.map fun c => packedRec num c.flatten (raws c)) ++ after)
+      = foldFields S rec d st (before ++ (chunks.flatten.map fun e => unpackedRec num f.ty e (raws' e)) ++ after) := by
+  apply load_pack_mix S rec d idx f hr before after _ _ st hw (by simpa using hne) (by simpa using hne')
+    (by intro pf hpf; simp only [List.mem_map] at hpf; obtain ⟨c, _, e⟩ := hpf; rw [← e]; exact ht _ _)
+    (by intro pf hpf; simp only [List.mem_map] at hpf; obtain ⟨c, _, e⟩ := hpf; rw [← e]; exact ht' _ _) vs
+  · exact elemsOfRecs_chunks S rec f hr.2.1 num chunks raws hv vs hd
+  · exact elemsOfRecs_unpacked S rec f num chunks.flatten raws' vs hd hnl
+
+/-! ### non-minimal varints -/
+
+/-- **non-minimal varints, framing**: a byte string assembled from records whose tag, length
+    and value varints are each written in ANY well-shaped way of at most 10 bytes (minimal or
+    padded with redundant continuation groups) is split into exactly the records those
+    varints denote (`C16.load_padded` lifted to whole messages). -/
+theorem framing_padded (rs : List EncRec) (hv : ∀ r ∈ rs, r.Valid) :
+    loadFields (rs.map EncRec.bytes).flatten = .ok (rs.map EncRec.toPField) := loadFields_encRecs rs hv
+
+/-- **non-minimal varints**: replacing any varints — tags, lengths, values — of the records
+    of a message by other well-shaped encodings (≤ 10 bytes) of the same numbers does not
+    change the decoded message (nor whether decoding fails), for every class, every starting
+    state and every nesting budget.  (The raw bytes retained for UNKNOWN records do keep
+    their padding; they are not part of `core`.) -/
+theorem load_varint_padding (S : Schema) (fuel : Nat) (d : MsgD) (st : MState) (rs rs' : List EncRec)
+    (hv : ∀ r ∈ rs, r.Valid) (hv' : ∀ r ∈ rs', r.Valid) (hsame : List.Forall₂ EncRec.SamePad rs rs') :
+    (loadInto S (fuel + 1) d st (rs.map EncRec.bytes).flatten).map core
+      = (loadInto S (fuel + 1) d st (rs'.map EncRec.bytes).flatten).map core := by
+  rw [loadInto_succ, loadInto_succ, loadFields_encRecs rs hv, loadFields_encRecs rs' hv']
+  simp only [bind_ok]
+  exact foldFields_congr S _ d _ _
+    (forall₂_map _ _ EncRec.toPField rs rs' (fun a b h => samePad_sameMeaning S _ d a b h) hsame) _ _ rfl
+
+/-- … inside a packed chunk: the elements may be padded too -/
+theorem load_varint_padding_packed (S : Schema) (rec : Loader) (f : FieldD) (hp : isPacked f.ty = true) (num : Nat)
+    (es es' : List Bytes) (raw raw' : Bytes) (hv : ∀ e ∈ es, ValidElem f.ty e) (hv' : ∀ e ∈ es', ValidElem f.ty e)
+    (hsame : decodeElems f.ty es = decodeElems f.ty es') :
+    decodeValue S rec f (packedRec num es.flatten raw) = decodeValue S rec f (packedRec num es'.flatten raw') := by
+  rw [decodeValue_packedRec S rec f num _ _ hp, decodeValue_packedRec S rec f num _ _ hp,
+    decodePacked_elems f.ty es hv, decodePacked_elems f.ty es' hv', hsame]
+
+/-- … inside a nested message / map entry: if the nested loader reads the re-padded payload
+    like the original one (this theorem one level down), so does the enclosing record.
+    Together with `load_same_meaning` this propagates padding invariance level by level. -/
+theorem load_varint_padding_nested (S : Schema) (rec : Loader) (f : FieldD) (num : Nat) (p p' raw raw' : Bytes)
+    (hty : f.ty = .message ∨ f.ty = .map) (h : ∀ d' st', rec d' st' p = rec d' st' p') :
+    decodeValue S rec f (packedRec num p raw) = decodeValue S rec f (packedRec num p' raw') :=
+  decodeValue_nested_congr S rec f num p p' raw raw' hty h
+
+/-- records that mean the same (same number and wire type, same decoded value for the field
+    they target) are interchangeable, one by one, anywhere in a message -/
+theorem load_same_meaning (S : Schema) (rec : Loader) (d : MsgD) (st : MState) (pfs pfs' : List PField)
+    (hs : List.Forall₂ (SameMeaning S rec d) pfs pfs') :
+    (foldFields S rec d st pfs).map core = (foldFields S rec d st pfs').map core :=
+  foldFields_congr S rec d pfs pfs' hs st st rfl
 
 /-! ### repeated occurrences of a singular scalar / of oneof members: the last one wins -/
 
